@@ -285,6 +285,11 @@ func (e *emitter) Header(
 }
 
 func (e *emitter) Message(data []byte, streamEnded bool) error {
+	// An end of stream that carries no message is forwarded as an empty DATA frame, not as an
+	// (extra) empty message.
+	if data == nil && streamEnded {
+		return e.sink.Data(nil, true)
+	}
 	// Applies compression to `data` depending on `adapter`'s state.
 	if e.adapter.compressed {
 		switch e.adapter.encoding {
